@@ -115,6 +115,7 @@ class Term:
     det3: bool = False                # uses the JAX 3x3 determinant when dim == 3
     energy: bool = False
     res_defect: Optional[Callable] = None   # residual under the model of a reproduced defect (classification only)
+    kw: Optional[Callable] = None     # kw(rng, basis) -> keyword parameters passed to assemble() (reach `w` by name)
 
 
 def _c(lo=0.5, hi=2.0, *names):
@@ -131,6 +132,44 @@ def JH():
 def jnp():
     import jax.numpy as j
     return j
+
+
+# ------------------------------------------------------------------ keyword parameters of assemble()
+# The library converts only its own default parameters (w.x, w.h, w.n) to JaxDiscreteField; keyword parameters
+# reach the integrand as NumPy objects: a float, a DiscreteField (pre-interpolated, or made of a 1-D DOF array or of
+# a 2-D array by the library), or a tuple of DiscreteFields (composite bases).  Integrands write the
+# JaxDiscreteField first (`u * w.prev`) or convert with jnp.asarray(np.asarray(w.prev)).
+def _dofs(rng, basis):
+    return rng.uniform(-1, 1, size=basis.N)
+
+
+def _nq(basis):
+    return int(basis.X.shape[-1])
+
+
+def _J(z):
+    return jnp().asarray(np.asarray(z))
+
+
+def _kw_scalar_field(rng, basis):
+    return {"prev": basis.interpolate(_dofs(rng, basis)),                       # the Newton-loop idiom
+            "q": rng.uniform(.5, 1.5, size=(basis.nelems, _nq(basis))),          # 2-D array: values at the quadrature points
+            "s": float(np.round(rng.uniform(.5, 2), 3))}
+
+
+def _kw_vector_field(rng, basis):
+    return {"prev": basis.interpolate(_dofs(rng, basis)), "s": float(np.round(rng.uniform(.5, 2), 3)),
+            "q": rng.uniform(.5, 1.5, size=(basis.nelems, _nq(basis)))}
+
+
+def _kw_pair(rng, basis):
+    return {"prev": basis.interpolate(_dofs(rng, basis)),                       # a tuple of DiscreteFields
+            "k": _dofs(rng, basis),                                              # DOF array: interpolated to a tuple
+            "t": float(np.round(rng.uniform(.5, 2), 3))}
+
+
+def _kw_facet(rng, basis):
+    return {"g": basis.interpolate(_dofs(rng, basis)), "k": _dofs(rng, basis), "t": float(np.round(rng.uniform(.5, 2), 3))}
 
 
 # ================================================================== scalar H1 terms (value + grad)
@@ -233,6 +272,15 @@ def scalar_terms():
            + P["c"] * (e_dot(np.asarray(w.k.grad), D[0].g) * U[0].v
                        + e_dot(np.asarray(w.k.grad), U[0].g) * D[0].v) * V[0].v,
            coef=_c(.5, 2, "c"), jax_helpers=("dot", "grad")))
+    a(Term("kwargs-field", "scalar",   # pre-interpolated DiscreteField `prev`, 2-D array `q`, float `s`
+           jx=lambda u, v, w, P: P["c"] * ((u[0] * w.prev) * u[0]) * v[0]
+           + JH().dot(_J(w.prev.grad), JH().grad(u[0])) * ((u[0] * w.q) * v[0]) + w.s * u[0] * v[0],
+           res=lambda U, V, w, P: P["c"] * np.asarray(w.prev) * U[0].v ** 2 * V[0].v
+           + e_dot(np.asarray(w.prev.grad), U[0].g) * U[0].v * np.asarray(w.q) * V[0].v + w.s * U[0].v * V[0].v,
+           jac=lambda U, D, V, w, P: 2 * P["c"] * np.asarray(w.prev) * U[0].v * D[0].v * V[0].v
+           + (e_dot(np.asarray(w.prev.grad), D[0].g) * U[0].v + e_dot(np.asarray(w.prev.grad), U[0].g) * D[0].v)
+           * np.asarray(w.q) * V[0].v + w.s * D[0].v * V[0].v,
+           coef=_c(.5, 2, "c"), jax_helpers=("dot", "grad"), kw=_kw_scalar_field))
     return T
 
 
@@ -329,6 +377,15 @@ def vector_terms():
            res=lambda U, V, w, P: P["c"] * U[0].v[0] * U[0].v[1] * V[0].v[1] - P["a"] * np.asarray(w.x)[1] * V[0].v[0],
            jac=lambda U, D, V, w, P: P["c"] * (D[0].v[0] * U[0].v[1] + U[0].v[0] * D[0].v[1]) * V[0].v[1],
            coef=_c(.5, 2, "c", "a"), dims=(2, 3)))
+    a(Term("kwargs-vector", "vector",   # (prev . u)(u . v) q + s (grad u grad prev) : grad v
+           jx=lambda u, v, w, P: P["c"] * JH().dot(u[0], _J(w.prev)) * (JH().dot(u[0], v[0]) * _J(w.q))
+           + w.s * JH().ddot(JH().mul(JH().grad(u[0]), _J(w.prev.grad)), JH().grad(v[0])),
+           res=lambda U, V, w, P: P["c"] * e_dot(U[0].v, np.asarray(w.prev)) * e_dot(U[0].v, V[0].v) * np.asarray(w.q)
+           + w.s * e_ddot(e_mm(U[0].g, np.asarray(w.prev.grad)), V[0].g),
+           jac=lambda U, D, V, w, P: P["c"] * (e_dot(D[0].v, np.asarray(w.prev)) * e_dot(U[0].v, V[0].v)
+                                               + e_dot(U[0].v, np.asarray(w.prev)) * e_dot(D[0].v, V[0].v)) * np.asarray(w.q)
+           + w.s * e_ddot(e_mm(D[0].g, np.asarray(w.prev.grad)), V[0].g),
+           coef=_c(.5, 2, "c"), dims=(2, 3), jax_helpers=("dot", "ddot", "mul", "grad"), kw=_kw_vector_field))
     # order of the nonlinear terms = rotation order of the cases (det-pressure second: it meets the first
     # 3-D case of the quick tier)
     first = ["elasticity", "oseen-linear", "body-force", "convection", "det-pressure"]
@@ -390,6 +447,27 @@ def composite_terms():
                                       + P["c"] * (D[0].v * U[1].v ** 2 + 2 * U[0].v * U[1].v * D[1].v) * V[0].v
                                       + (D[1].v - 2 * U[0].v * D[0].v) * V[1].v + P["a"] * e_dot(D[1].g, V[0].g)),
            coef=_c(.5, 2, "c", "a"), jax_helpers=("dot", "grad")))
+    a(Term("kwargs-pair", "scalar+scalar",   # DOF array `k` -> tuple of fields, pre-interpolated tuple `prev`, float `t`
+           jx=lambda u, v, w, P: (P["c"] * ((u[0] * w.k[0]) * u[1]) * v[0] + ((u[1] * w.prev[1]) * u[1]) * v[1]
+                                  + w.t * u[0] * v[0] + u[1] * v[1]),
+           res=lambda U, V, w, P: (P["c"] * np.asarray(w.k[0]) * U[0].v * U[1].v * V[0].v
+                                   + np.asarray(w.prev[1]) * U[1].v ** 2 * V[1].v + w.t * U[0].v * V[0].v + U[1].v * V[1].v),
+           jac=lambda U, D, V, w, P: (P["c"] * np.asarray(w.k[0]) * (D[0].v * U[1].v + U[0].v * D[1].v) * V[0].v
+                                      + 2 * np.asarray(w.prev[1]) * U[1].v * D[1].v * V[1].v + w.t * D[0].v * V[0].v
+                                      + D[1].v * V[1].v),
+           coef=_c(.5, 2, "c"), kw=_kw_pair))
+    a(Term("kwargs-velocity-pressure", "vector+scalar",
+           jx=lambda u, v, w, P: (P["c"] * JH().dot(u[0], _J(w.prev[0])) * JH().dot(u[0], v[0])
+                                  + ((u[1] * w.k[1]) * u[1]) * v[1] + w.t * JH().ddot(JH().grad(u[0]), JH().grad(v[0]))
+                                  + u[1] * v[1] - JH().div(v[0]) * u[1]),
+           res=lambda U, V, w, P: (P["c"] * e_dot(U[0].v, np.asarray(w.prev[0])) * e_dot(U[0].v, V[0].v)
+                                   + np.asarray(w.k[1]) * U[1].v ** 2 * V[1].v + w.t * e_ddot(U[0].g, V[0].g)
+                                   + U[1].v * V[1].v - e_tr(V[0].g) * U[1].v),
+           jac=lambda U, D, V, w, P: (P["c"] * (e_dot(D[0].v, np.asarray(w.prev[0])) * e_dot(U[0].v, V[0].v)
+                                                + e_dot(U[0].v, np.asarray(w.prev[0])) * e_dot(D[0].v, V[0].v))
+                                      + 2 * np.asarray(w.k[1]) * U[1].v * D[1].v * V[1].v + w.t * e_ddot(D[0].g, V[0].g)
+                                      + D[1].v * V[1].v - e_tr(V[0].g) * D[1].v),
+           coef=_c(.5, 2, "c"), dims=(2, 3), jax_helpers=("dot", "ddot", "grad", "div"), kw=_kw_pair))
     # --- three scalar components
     a(Term("reaction-triple", "scalar+scalar+scalar",
            jx=lambda u, v, w, P: (P["c"] * (u[0] * u[1]) * v[2] + (u[2] * u[2]) * v[0] + jnp().exp(P["a"] * u[1]) * v[1]
@@ -480,6 +558,14 @@ def facet_terms():
            jac=lambda U, D, V, w, P: 4 * P["c"] * U[0].v ** 3 * D[0].v * V[0].v
            + (e_dot(np.asarray(w.n), D[0].g) * U[0].v + e_dot(np.asarray(w.n), U[0].g) * D[0].v) * V[0].v,
            coef=_c(.5, 2, "c"), amp=8.0, dims=(2, 3), jax_helpers=("dot", "grad")))
+    a(Term("kwargs-facet", "scalar",   # keyword parameters on a facet basis: DOF array, pre-interpolated field, float
+           jx=lambda u, v, w, P: w.t * ((u[0] * w.k) * u[0]) * v[0]
+           + P["c"] * JH().dot(w.n, _J(w.g.grad)) * (u[0] * v[0]),
+           res=lambda U, V, w, P: w.t * np.asarray(w.k) * U[0].v ** 2 * V[0].v
+           + P["c"] * e_dot(np.asarray(w.n), np.asarray(w.g.grad)) * U[0].v * V[0].v,
+           jac=lambda U, D, V, w, P: 2 * w.t * np.asarray(w.k) * U[0].v * D[0].v * V[0].v
+           + P["c"] * e_dot(np.asarray(w.n), np.asarray(w.g.grad)) * D[0].v * V[0].v,
+           coef=_c(.5, 2, "c"), dims=(2, 3), jax_helpers=("dot",), kw=_kw_facet))
     a(Term("normal-flux", "vector",
            jx=lambda u, v, w, P: P["c"] * JH().dot(u[0], w.n) * JH().dot(u[0], v[0])
            + JH().dot(JH().mul(JH().grad(u[0]), w.n), v[0]),
@@ -544,6 +630,51 @@ def energy_terms():
                                       + 2 * (D[0].v * U[1].v + U[0].v * D[1].v) * V[0].v + 2 * U[0].v * D[0].v * V[1].v
                                       + 3 * U[1].v ** 2 * D[1].v * V[1].v),
            coef=_c(.5, 2, "c"), jax_helpers=("dot", "grad")))
+    a(Term("E-plate", "hess", energy=True,   # Kirchhoff plate energy with a quartic foundation, H^2 elements (dd)
+           jx=lambda u, w, P: .5 * P["c"] * JH().ddot(JH().dd(u[0]), JH().dd(u[0])) + .25 * u[0] ** 4
+           - P["a"] * jnp().sin(w.x[0]) * u[0],
+           res=lambda U, V, w, P: P["c"] * e_ddot(U[0].h, V[0].h) + U[0].v ** 3 * V[0].v
+           - P["a"] * np.sin(np.asarray(w.x)[0]) * V[0].v,
+           jac=lambda U, D, V, w, P: P["c"] * e_ddot(D[0].h, V[0].h) + 3 * U[0].v ** 2 * D[0].v * V[0].v,
+           coef=_c(.5, 2, "c", "a"), dims=(2,), amp=4.0, jax_helpers=("ddot", "dd")))
+    a(Term("E-velocity-pressure", "vector+scalar", energy=True,
+           jx=lambda u, w, P: (.5 * P["mu"] * JH().ddot(JH().grad(u[0]), JH().grad(u[0])) + .5 * (u[1] * u[1])
+                               + JH().div(u[0]) * u[1] + .5 * P["c"] * JH().dot(u[0], u[0]) * (u[1] * u[1])
+                               - w.x[0] * u[0][1]),
+           res=lambda U, V, w, P: (P["mu"] * e_ddot(U[0].g, V[0].g) + U[1].v * V[1].v + e_tr(V[0].g) * U[1].v
+                                   + e_tr(U[0].g) * V[1].v + P["c"] * e_dot(U[0].v, V[0].v) * U[1].v ** 2
+                                   + P["c"] * e_dot(U[0].v, U[0].v) * U[1].v * V[1].v - np.asarray(w.x)[0] * V[0].v[1]),
+           jac=lambda U, D, V, w, P: (P["mu"] * e_ddot(D[0].g, V[0].g) + D[1].v * V[1].v + e_tr(V[0].g) * D[1].v
+                                      + e_tr(D[0].g) * V[1].v
+                                      + P["c"] * (e_dot(D[0].v, V[0].v) * U[1].v ** 2
+                                                  + 2 * e_dot(U[0].v, V[0].v) * U[1].v * D[1].v
+                                                  + 2 * e_dot(U[0].v, D[0].v) * U[1].v * V[1].v
+                                                  + e_dot(U[0].v, U[0].v) * D[1].v * V[1].v)),
+           coef=_c(.5, 2, "mu", "c"), dims=(2, 3), amp=6.0, jax_helpers=("ddot", "grad", "div", "dot")))
+    return T
+
+
+def facet_energy_terms():
+    """Energies on facet bases (Robin / traction type boundary energies; use the normal w.n and w.x)."""
+    T = []
+    a = T.append
+    a(Term("E-robin", "scalar", energy=True,
+           jx=lambda u, w, P: (P["c"] * (.5 * (u[0] * u[0]) + .25 * u[0] ** 4)
+                               + .5 * JH().dot(w.n, JH().grad(u[0])) ** 2 - JH().dot(w.n, w.x) * u[0]),
+           res=lambda U, V, w, P: (P["c"] * (U[0].v + U[0].v ** 3) * V[0].v
+                                   + e_dot(np.asarray(w.n), U[0].g) * e_dot(np.asarray(w.n), V[0].g)
+                                   - e_dot(np.asarray(w.n), np.asarray(w.x)) * V[0].v),
+           jac=lambda U, D, V, w, P: (P["c"] * (1 + 3 * U[0].v ** 2) * D[0].v * V[0].v
+                                      + e_dot(np.asarray(w.n), D[0].g) * e_dot(np.asarray(w.n), V[0].g)),
+           coef=_c(.5, 2, "c"), dims=(2, 3), amp=6.0, jax_helpers=("dot", "grad")))
+    a(Term("E-traction", "vector", energy=True,
+           jx=lambda u, w, P: .5 * P["c"] * JH().dot(u[0], w.n) ** 2 + .25 * JH().dot(u[0], u[0]) ** 2,
+           res=lambda U, V, w, P: (P["c"] * e_dot(U[0].v, np.asarray(w.n)) * e_dot(V[0].v, np.asarray(w.n))
+                                   + e_dot(U[0].v, U[0].v) * e_dot(U[0].v, V[0].v)),
+           jac=lambda U, D, V, w, P: (P["c"] * e_dot(D[0].v, np.asarray(w.n)) * e_dot(V[0].v, np.asarray(w.n))
+                                      + 2 * e_dot(U[0].v, D[0].v) * e_dot(U[0].v, V[0].v)
+                                      + e_dot(U[0].v, U[0].v) * e_dot(D[0].v, V[0].v)),
+           coef=_c(.5, 2, "c"), dims=(2, 3), amp=6.0, jax_helpers=("dot",)))
     return T
 
 
@@ -593,7 +724,7 @@ def neo_res_with_defect(G, dV, P):
 
 
 POOLS = {"scalar": scalar_terms, "vector": vector_terms, "composite": composite_terms, "hess": hess_terms,
-         "facet": facet_terms, "energy": energy_terms}
+         "facet": facet_terms, "energy": energy_terms, "facet-energy": facet_energy_terms}
 _CACHE = {}
 
 
